@@ -453,7 +453,7 @@ Definition connect_module (c : Z) (h : hdr) (ip : inpayload) : M bool :=
     else
       set_mod c mm_connected ;;;
       s2 <- get ;;
-      (if m_logger (find_mod c (mods s2)) then modify (fun s => with_loggers s (zinsert c (loggers s))) else ret tt) ;;;
+      (if m_logger (find_mod c (mods s2)) && m_reg (find_mod c (mods s2)) then modify (fun s => with_loggers s (zinsert c (loggers s))) else ret tt) ;;;
       ret true.
 
 Definition add_subscription (c t : Z) : M unit :=
